@@ -18,6 +18,8 @@
       callee such a default is handed to is the legacy Fortran line search
       `sp.optimize.minpack2.dcsrch`, which the code reaches only for SciPy < 1.12 (the harness
       asserts the installed SciPy is newer on every run);
+    * `inputs_not_written`: the entry point contains no in-place write on its array inputs or
+      on direct aliases of them;
     * `display_is_read_only`: no block guarded by `iprint`/`logger`, and no display helper,
       assigns a name that is read elsewhere, modifies anything in place, or transfers control —
       so `iprint` and `logger` cannot influence a numerical output.
@@ -96,6 +98,12 @@ read elsewhere, nothing is modified in place there, no control transfer happens 
 display helpers do not write into their arguments. -/
 theorem display_is_read_only :
     ∀ d ∈ display, d.leaks = [] ∧ d.writes = [] ∧ d.jumps = [] := by decide
+
+/-- **C14 (2d)** `minimize_lbfgsb` performs no in-place modification of `x0`, `bounds`, `checkpoint`,
+`args`, nor of a name bound directly to one of them or to one of the checkpoint's arrays (the
+defect repaired by "do not scale the checkpoint's gradient in place" makes this table non-empty).
+Flow-insensitive and syntactic: deeper aliasing is covered by the frozen-input search. -/
+theorem inputs_not_written : inputWrites = [] := by decide
 
 /-! ### (3) determinism of the model -/
 section det
